@@ -188,7 +188,7 @@ fn tx_begin_reader_and_drop() {
 }
 
 // ---- C06-Ob2: a writer that frees and allocates and is then dropped leaves shared state and file untouched
-// @ob props=C06 tier=quick cap=900 fns=Tx::new,TxInner::drop,TxFreelist::free,TxFreelist::allocate bound="committed id 7; writer frees run (3,1), allocates 300 bytes (2 pages) and 40 bytes; 2 pending lists any ids <= 7; one reader" unwind=5
+// @ob props=C06 tier=quick cap=800 mem=8 fns=Tx::new,TxInner::drop,TxFreelist::free,TxFreelist::allocate bound="committed id 7; writer frees run (3,1), allocates 300 bytes (2 pages) and 40 bytes; 2 pending lists any ids <= 7; one reader" unwind=5
 #[kani::proof]
 #[kani::unwind(5)]
 fn tx_abandoned_writer_no_trace() {
@@ -329,7 +329,7 @@ fn untouched_pages_ok() {
 }
 
 // ---- C02-Ob1 / C05 / C10-Ob4: the write plan of a commit
-// @ob props=C02,C10 tier=quick cap=900 mem=12 fns=Tx::commit,TxInner::write_data,TxFreelist::free,TxFreelist::allocate,Freelist::pages,Freelist::size,Page::freelist_mut,Page::meta_mut,Meta::hash_self,DBInner::meta bound="12-page file, one dirty 40-byte page, free set {4,5}, no reader, no growth, strict mode off" unwind=260
+// @ob props=C02,C10 tier=quick cap=800 mem=10 fns=Tx::commit,TxInner::write_data,TxFreelist::free,TxFreelist::allocate,Freelist::pages,Freelist::size,Page::freelist_mut,Page::meta_mut,Meta::hash_self,DBInner::meta bound="12-page file, one dirty 40-byte page, free set {4,5}, no reader, no growth, strict mode off" unwind=260
 #[kani::proof]
 #[kani::unwind(260)]
 fn tx_commit_write_plan() {
@@ -526,7 +526,7 @@ fn tx_commit_crash_prefix() {
 
 // ---- C02-Ob3: power loss = operations issued after the last completed sync persist in any subset; data
 //      writes atomically (each lies inside one 512-byte sector), the header write torn at 8-byte words
-// @ob props=C02 tier=quick cap=1800 mem=14 fns=Tx::commit,TxInner::write_data,DBInner::meta,Page::meta,Meta::valid,Meta::hash_self bound="the commit of tx_commit_write_plan; power loss after any prefix k; every subset of the unsynced writes; header torn at any 8-byte word mask over its 13 record words" unwind=520
+// @ob props=C02 tier=quick cap=850 mem=10 fns=Tx::commit,TxInner::write_data,DBInner::meta,Page::meta,Meta::valid,Meta::hash_self bound="the commit of tx_commit_write_plan; power loss after any prefix k; every subset of the unsynced writes; header torn at any 8-byte word mask over its 13 record words" unwind=520
 #[kani::proof]
 #[kani::unwind(520)]
 fn tx_commit_power_loss() {
@@ -643,17 +643,17 @@ fault_harness!(tx_commit_fault_02_short, 2, 8);
 fault_harness!(tx_commit_fault_04_write, 4, 0);
 // @ob props=C11 tier=thorough cap=1200 mem=12 fns=Tx::commit,TxInner::write_data bound="failing call 5: flush after the data pages" unwind=520
 fault_harness!(tx_commit_fault_05_flush, 5, 0);
-// @ob props=C11 tier=quick cap=1200 mem=12 fns=Tx::commit,TxInner::write_data,DBInner::meta bound="failing call 6: sync after the data pages" unwind=520
+// @ob props=C11 tier=quick cap=700 mem=10 fns=Tx::commit,TxInner::write_data,DBInner::meta bound="failing call 6: sync after the data pages" unwind=520
 fault_harness!(tx_commit_fault_06_sync, 6, 0);
 // @ob props=C11 tier=thorough cap=1200 mem=12 fns=Tx::commit,TxInner::write_data bound="failing call 7: seek to the header slot" unwind=520
 fault_harness!(tx_commit_fault_07_seek, 7, 0);
 // @ob props=C11 tier=thorough cap=1200 mem=12 fns=Tx::commit,TxInner::write_data,DBInner::meta bound="failing call 8: write of the header page (error, nothing written)" unwind=520
 fault_harness!(tx_commit_fault_08_write, 8, 0);
-// @ob props=C11 tier=quick cap=1200 mem=12 fns=Tx::commit,TxInner::write_data,DBInner::meta,Meta::valid bound="call 8 (header page) is a short write of 8 bytes, the next call fails: torn header" unwind=520
+// @ob props=C11 tier=quick cap=700 mem=10 fns=Tx::commit,TxInner::write_data,DBInner::meta,Meta::valid bound="call 8 (header page) is a short write of 8 bytes, the next call fails: torn header" unwind=520
 fault_harness!(tx_commit_fault_08_short, 8, 8);
 // @ob props=C11 tier=thorough cap=1200 mem=12 fns=Tx::commit,TxInner::write_data,DBInner::meta bound="failing call 9: flush after the header write" unwind=520
 fault_harness!(tx_commit_fault_09_flush, 9, 0);
-// @ob props=C11 tier=quick cap=1200 mem=12 fns=Tx::commit,TxInner::write_data,DBInner::meta bound="failing call 10: the final sync (header already handed to the OS)" unwind=520
+// @ob props=C11 tier=quick cap=700 mem=10 fns=Tx::commit,TxInner::write_data,DBInner::meta bound="failing call 10: the final sync (header already handed to the OS)" unwind=520
 fault_harness!(tx_commit_fault_10_sync, 10, 0);
 
 // ---- C16-Ob3 / C02: file growth: when the commit needs more pages than the file has, the file is extended
@@ -697,7 +697,7 @@ fn tx_commit_growth_small() {
     growth_case(12);
 }
 
-// @ob props=C16,C02 tier=quick cap=1200 mem=12 fns=Tx::commit,TxInner::write_data,DBInner::resize bound="12-page file whose header records a high-water mark of 40000 pages (10 MB at 256-byte pages): growth crossing more than one 8 MiB step" unwind=260
+// @ob props=C16,C02 tier=quick cap=700 mem=10 fns=Tx::commit,TxInner::write_data,DBInner::resize bound="12-page file whose header records a high-water mark of 40000 pages (10 MB at 256-byte pages): growth crossing more than one 8 MiB step" unwind=260
 #[kani::proof]
 #[kani::unwind(260)]
 fn tx_commit_growth_two_steps() {
@@ -722,7 +722,7 @@ fn strict_db(num_pages: u64) -> &'static DB {
     db
 }
 
-// @ob props=C16,C05 tier=quick cap=1800 mem=12 fns=Tx::commit,TxInner::write_data,TxInner::check,Page::freelist,Page::leaf_elements bound="6-page consistent file (free {4,5}), empty transaction, strict mode on: the commit rewrites the free list only" unwind=260
+// @ob props=C16,C05 tier=quick cap=850 mem=10 fns=Tx::commit,TxInner::write_data,TxInner::check,Page::freelist,Page::leaf_elements bound="6-page consistent file (free {4,5}), empty transaction, strict mode on: the commit rewrites the free list only" unwind=260
 #[kani::proof]
 #[kani::unwind(260)]
 fn tx_commit_strict_mode_accepts() {
@@ -764,7 +764,7 @@ fn tx_commit_strict_mode_rejects_leak() {
 
 // ---- C02 copy-on-write: a page freed by the committing transaction itself is not reused by that commit
 //      (it is still part of the previous state), and no page in use is written
-// @ob props=C02,C05 tier=quick cap=1500 mem=12 fns=Tx::commit,TxInner::write_data,TxFreelist::free,TxFreelist::allocate,Freelist::allocate,Freelist::free bound="12-page file, free set {4}; the writer dirties one page (gets 4), frees page 9 (in use by the previous state), commits" unwind=260
+// @ob props=C02,C05 tier=quick cap=800 mem=10 fns=Tx::commit,TxInner::write_data,TxFreelist::free,TxFreelist::allocate,Freelist::allocate,Freelist::free bound="12-page file, free set {4}; the writer dirties one page (gets 4), frees page 9 (in use by the previous state), commits" unwind=260
 #[kani::proof]
 #[kani::unwind(260)]
 fn tx_commit_cow_freed_page_not_reused() {
@@ -811,7 +811,7 @@ fn tx_commit_cow_freed_page_not_reused() {
 }
 
 // ---- C07: the root-level bucket listing of a write transaction reflects its own creations
-// @ob props=C07 tier=quick cap=1200 mem=12 fns=Tx::buckets,Tx::create_bucket,Buckets::next,Cursor::next,InnerBucket::get_bucket,InnerBucket::bucket_getter bound="concrete scenario (one execution): committed root leaf with bucket m; the write transaction creates bucket c; first item of the root bucket listing" unwind=5
+// @ob props=C07 tier=quick cap=800 mem=10 fns=Tx::buckets,Tx::create_bucket,Buckets::next,Cursor::next,InnerBucket::get_bucket,InnerBucket::bucket_getter bound="concrete scenario (one execution): committed root leaf with bucket m; the write transaction creates bucket c; first item of the root bucket listing" unwind=5
 #[kani::proof]
 #[kani::unwind(5)]
 fn tx_buckets_lists_own_creation() {
